@@ -63,7 +63,8 @@ func (node *tagForNode) Execute(ctx *ExecutionContext, writer TemplateWriter) (f
 		forCtx.Private["forloop"] = loopInfo
 
 		forCtx.Private[node.key] = key
-		if value != nil {
+		if value != nil && node.value != "" {
+			// (a loop over a map with a single loop variable has no name for the value)
 			forCtx.Private[node.value] = value
 		}
 
